@@ -3,7 +3,9 @@ package props
 import (
 	"fmt"
 	"math"
+	"reflect"
 	"sort"
+	"strconv"
 	"strings"
 	"testing"
 
@@ -354,6 +356,25 @@ func checkC11Fn(c *c11FnCase) error {
 			}
 		}
 	}
+	// the same bindings given to Unmarshal reach the queries in the struct tags
+	calls = nil
+	typ := reflect.StructOf([]reflect.StructField{{Name: "V", Type: reflect.TypeOf([]string{}), Tag: reflect.StructTag("xsel:" + strconv.Quote(text))}})
+	target := reflect.New(typ)
+	var uerr error
+	func() {
+		defer func() {
+			if r := recover(); r != nil {
+				uerr = fmt.Errorf("panic: %v", r)
+			}
+		}()
+		uerr = xsel.Unmarshal(xsel.NodeSet{p.root}, target.Interface(), set...)
+	}()
+	if uerr != nil {
+		return fmt.Errorf("Unmarshal with the same bindings into struct{V []string `xsel:%q`} failed: %v", text, uerr)
+	}
+	if got := target.Elem().Field(0).Len(); got != len(elems) || len(calls) != len(elems) {
+		return fmt.Errorf("Unmarshal with the same bindings into struct{V []string `xsel:%q`}: %d elements and the user function was called %d times, want %d and %d", text, got, len(calls), len(elems), len(elems))
+	}
 	return nil
 }
 
@@ -421,6 +442,19 @@ func TestC11(t *testing.T) {
 				// two prefixes for one URI name the same variable
 				c.Vars = append(c.Vars, varBinding{Space: ns[pf], Local: "n", T: "num", Num: fmtFloat(float64(len(ns[pf])))})
 				env.NumVars = append(env.NumVars, pf+":n")
+			}
+			if pf != "x2" && rapid.IntRange(0, 2).Draw(t, "nsVarSameSpelling-"+pf) == 0 {
+				// a local name spelled like its prefix ($x:x, $child:child): the QName is split at the colon, nothing else
+				dup := false
+				for _, b := range c.Vars {
+					if b.Space == ns[pf] && b.Local == pf {
+						dup = true
+					}
+				}
+				if !dup {
+					c.Vars = append(c.Vars, varBinding{Space: ns[pf], Local: pf, T: "num", Num: fmtFloat(float64(100 + len(pf)))})
+					env.NumVars = append(env.NumVars, pf+":"+pf)
+				}
 			}
 		}
 		g := &xast.G{T: t, Env: env}
